@@ -68,6 +68,7 @@ class Inliner:
                 self.helpers.setdefault(f["qname"], []).append(f)
         self.counter = 0
         self.done = 0
+        self.spliced_ids = set()
 
     # -- which calls are spliced
     def _target(self, caller, ev):
@@ -88,7 +89,10 @@ class Inliner:
         # prefer the candidate with the same pattern-ness as the caller and the same arity
         cands = [c for c in cands if len(c.get("params", [])) == nargs] or cands
         same = [c for c in cands if bool(c.get("pattern")) == bool(caller.get("pattern"))]
-        return (same or cands)[0]
+        # members: the helper of the same class instantiation as the caller
+        rf = caller.get("record_full")
+        exact = [c for c in (same or cands) if rf and c.get("record_full") == rf]
+        return (exact or same or cands)[0]
 
     def _lambda_of(self, caller, var):
         for b in caller["blocks"]:
@@ -140,6 +144,7 @@ class Inliner:
         for f in self.fns:
             if "blocks" in f:
                 self._inline_fn(f, 0, set([f["id"]]))
+        self.raw["_spliced_ids"] = sorted(self.spliced_ids)
         return self.raw
 
     def _inline_fn(self, f, depth, stack):
@@ -298,6 +303,9 @@ class Inliner:
                         t_["cond"] = _walk_replace(t_["cond"], is_call, lambda n: copy.deepcopy(value))
         # handlers / tries of the caller refer to block ids that did not change; the exit block of f is unchanged
         f.setdefault("inlined", []).append({"callee": g["qname"], "loc": call.get("loc", ""), "lambda": is_lambda})
+        self.spliced_ids.add(g["id"])
+        for other in self.helpers.get(g["qname"], []):      # every instantiation of the same source function
+            self.spliced_ids.add(other["id"])
         return True
 
 
